@@ -30,6 +30,9 @@ type ErrSpec struct {
 	ErrKind string `json:"err_kind,omitempty"`
 	Msg     string `json:"msg,omitempty"`
 	Depth   int    `json:"depth,omitempty"`
+	// TB, when set, is carried in the RpcError's Traceback field, as an error
+	// decoded off the wire by a client and relayed by the handler has it.
+	TB string `json:"tb,omitempty"`
 }
 
 type UnaryScript struct {
@@ -80,11 +83,11 @@ func (e *kindedErr) ErrorKind() string { return e.k }
 func (e *ErrSpec) Build() error {
 	switch e.Kind {
 	case "rpc":
-		return &vgirpc.RpcError{Type: e.Type, Message: e.Msg, Kind: e.ErrKind}
+		return &vgirpc.RpcError{Type: e.Type, Message: e.Msg, Kind: e.ErrKind, Traceback: e.TB}
 	case "plain":
 		return errors.New(e.Msg)
 	case "wrapped_rpc":
-		var err error = &vgirpc.RpcError{Type: e.Type, Message: e.Msg, Kind: e.ErrKind}
+		var err error = &vgirpc.RpcError{Type: e.Type, Message: e.Msg, Kind: e.ErrKind, Traceback: e.TB}
 		for i := 0; i <= e.Depth; i++ {
 			err = fmt.Errorf("layer%d: %w", i, err)
 		}
@@ -108,7 +111,7 @@ func (e *ErrSpec) Build() error {
 	case "panic_int":
 		panic(len(e.Msg))
 	case "panic_rpc":
-		panic(&vgirpc.RpcError{Type: e.Type, Message: e.Msg})
+		panic(&vgirpc.RpcError{Type: e.Type, Message: e.Msg, Traceback: e.TB})
 	case "panic_nilmap":
 		var m map[string]int
 		m[e.Msg] = 1
